@@ -21,7 +21,7 @@ ALSO = {'C01': ['C13'], 'C02': ['C01', 'C08'], 'C09': ['C01', 'C12'], 'C10': ['C
 
 def work(args):
     k, jobs = args
-    copy = '/dev/shm/vw%d' % k
+    copy = '/dev/shm/vw%s_%d' % (os.environ.get('SEEDWAVE_TAG', 'a'), k)
     shutil.rmtree(copy, ignore_errors=True)
     subprocess.run(['rsync', '-a', '--exclude', '.git', '--exclude', 'replays', '--exclude', 'evidence_scratch',
                     VERIF + '/', copy + '/'], check=True)
